@@ -1,0 +1,113 @@
+//go:build verif
+
+// Licensed to LinDB under one or more contributor
+// license agreements. See the NOTICE file distributed with
+// this work for additional information regarding copyright
+// ownership. LinDB licenses this file to you under
+// the Apache License, Version 2.0 (the "License"); you may
+// not use this file except in compliance with the License.
+// You may obtain a copy of the License at
+//
+//     http://www.apache.org/licenses/LICENSE-2.0
+//
+// Unless required by applicable law or agreed to in writing,
+// software distributed under the License is distributed on an
+// "AS IS" BASIS, WITHOUT WARRANTIES OR CONDITIONS OF ANY
+// KIND, either express or implied.  See the License for the
+// specific language governing permissions and limitations
+// under the License.
+
+package kv
+
+import (
+	"github.com/lindb/lindb/kv/table"
+	"github.com/lindb/lindb/pkg/lockers"
+)
+
+// This file only exists with the "verif" build tag. It exposes the package's
+// test seams to the external verification harness; it changes no behaviour.
+
+// VerifSeams holds the replaceable file-system seams of the kv package.
+type VerifSeams struct {
+	MkDir       func(path string) error
+	EncodeToml  func(fileName string, v interface{}) error
+	NewFileLock func(fileName string) (lockers.FileLock, error)
+	ListDir     func(path string) ([]string, error)
+	Remove      func(name string) error
+	RemoveDir   func(path string) error
+}
+
+// VerifGetSeams returns the current seams.
+func VerifGetSeams() VerifSeams {
+	return VerifSeams{
+		MkDir:       mkDirFunc,
+		EncodeToml:  encodeTomlFunc,
+		NewFileLock: newFileLockFunc,
+		ListDir:     listDirFunc,
+		Remove:      removeFunc,
+		RemoveDir:   removeDirFunc,
+	}
+}
+
+// VerifSetSeams installs the non-nil seams.
+func VerifSetSeams(s VerifSeams) {
+	if s.MkDir != nil {
+		mkDirFunc = s.MkDir
+	}
+	if s.EncodeToml != nil {
+		encodeTomlFunc = s.EncodeToml
+	}
+	if s.NewFileLock != nil {
+		newFileLockFunc = s.NewFileLock
+	}
+	if s.ListDir != nil {
+		listDirFunc = s.ListDir
+	}
+	if s.Remove != nil {
+		removeFunc = s.Remove
+	}
+	if s.RemoveDir != nil {
+		removeDirFunc = s.RemoveDir
+	}
+}
+
+// VerifStoreCompact runs one store-level compact() tick (compaction check,
+// rollup check, reader cache cleanup) like the store manager's timer does.
+func VerifStoreCompact(s Store) {
+	s.(*store).compact()
+}
+
+// VerifFamilyWait waits for the background jobs (compaction/rollup) of a family.
+func VerifFamilyWait(f Family) {
+	f.(*family).condition.Wait()
+}
+
+// VerifFamilyBusy reports if a background compaction or rollup job is running.
+func VerifFamilyBusy(f Family) bool {
+	ff := f.(*family)
+	return ff.compacting.Load() || ff.rolluping.Load()
+}
+
+// VerifFamilyPending returns the pending output file numbers of a family.
+func VerifFamilyPending(f Family) (rs []table.FileNumber) {
+	f.(*family).pendingOutputs.Range(func(key, _ interface{}) bool {
+		rs = append(rs, key.(table.FileNumber))
+		return true
+	})
+	return rs
+}
+
+// VerifFamilyDeleteObsoleteFiles runs the obsolete file cleanup of a family.
+func VerifFamilyDeleteObsoleteFiles(f Family) {
+	f.deleteObsoleteFiles()
+}
+
+// VerifFamilyCompact starts a compaction job for family(no threshold check).
+func VerifFamilyCompact(f Family) {
+	f.compact()
+}
+
+// VerifFamilyRollup starts a rollup job for family if it has live rollup files.
+func VerifFamilyRollup(f Family) {
+	f.rollup()
+}
